@@ -53,7 +53,7 @@ func genRememberBlock(t *rapid.T, f *model.Forest, lim limits, salt int) Block {
 }
 
 func genC07(t *rapid.T) C07Case {
-	lim := genLimits(t)
+	lim := genLimitsGiant(t)
 	f := &model.Forest{}
 	n := rapid.IntRange(1, lim.maxBlocks).Draw(t, "nblocks")
 	var c C07Case
